@@ -113,6 +113,11 @@ def engine_quirk(ex, case, ref=None):
         if any(has_op(e, {"str.join"}) for e in exprs):
             # the SQLite library of this sandbox predates string_agg / ORDER BY inside aggregates (3.44)
             return "sqlite_without_string_agg"
+    if exc_name(ex) == "OperationalError" and "ON clause references tables to its right" in msg and any(
+            s.get("verb") == "join" and s.get("how") == "full" for s in case.get("steps", [])):
+        # SQLite 3.40: a (valid) statement whose subquery holds a FULL OUTER JOIN inside a compound SELECT is rejected
+        # by the query flattener (same engine bug family as DESIGN 4.15 h)
+        return "sqlite_full_join_in_compound_subquery"
     if exc_name(ex) == "OperationalError" and "parser stack overflow" in msg:
         return "sqlite_parser_stack"  # expression nesting beyond the SQLite parser's stack (thorough-tier depths)
     if exc_name(ex) == "InvalidOperationError" and "conversion from" in msg and "failed" in msg and (
